@@ -621,7 +621,6 @@ func init() {
 	register(&Rule{Name: "C02.update-keeps-status", Min: 3, Run: c02UpdateKeepsStatus,
 		Doc: "the delta row of an UPDATE carries the stored row's own insert/delete time, so it never wins the delete-status comparison; the deltas of INSERT and DELETE carry the statement's time"})
 	byProp["C02"] = append(byProp["C02"], "C02.update-keeps-status")
-	byProp["C01"] = append(byProp["C01"], "C02.update-keeps-status")
 	explain["C02"] += " update-keeps-status: MergeRows decides the row's status by the later of the two sides' status times (entry time + DeleteUpdateOffset). A delta row whose offset is left zero claims 'the row exists as of the statement's time' — right for INSERT, and with Deleted set for DELETE, but an UPDATE that does so refreshes the row's existence and wins against a DELETE it has not seen ('a DELETE keeps the row absent, even against UPDATEs carrying a later write time'). In Update the delta's DeleteUpdateOffset is assigned from the stored row's offset, the stored entry's time and the statement time; in Insert and Delete it is not assigned."
 }
 
